@@ -124,16 +124,22 @@ fn env() -> &'static Env {
             ta.set_basic_ca(Some(true));
             ta.set_ca_repository(Some(u.clone()));
             ta.set_rpki_manifest(Some(u.clone()));
-            ta.build_v4_resource_blocks(|b| {
-                for &(a, l) in TA_V4 {
-                    b.push(Prefix::new(v4_bits(a), l))
-                }
-            });
-            ta.build_v6_resource_blocks(|b| {
-                for &(a, l) in TA_V6 {
-                    b.push(Prefix::new(a, l))
-                }
-            });
+            // trust anchors 5, 6 and 7 hold no IPv4 / no IPv6 / no IP space at all (an EE
+            // certificate that inherits such a family validates to nothing for it)
+            if ta_has_v4(i) {
+                ta.build_v4_resource_blocks(|b| {
+                    for &(a, l) in TA_V4 {
+                        b.push(Prefix::new(v4_bits(a), l))
+                    }
+                });
+            }
+            if ta_has_v6(i) {
+                ta.build_v6_resource_blocks(|b| {
+                    for &(a, l) in TA_V6 {
+                        b.push(Prefix::new(a, l))
+                    }
+                });
+            }
             ta.build_as_resource_blocks(|b| {
                 for &(lo, hi) in TA_AS {
                     b.push((Asn::from_u32(lo), Asn::from_u32(hi)))
@@ -148,6 +154,13 @@ fn env() -> &'static Env {
         }
         Env { tas }
     })
+}
+
+pub fn ta_has_v4(idx: usize) -> bool {
+    !matches!(idx % POOL_SIZE, 5 | 7)
+}
+pub fn ta_has_v6(idx: usize) -> bool {
+    !matches!(idx % POOL_SIZE, 6 | 7)
 }
 
 /// The validated trust anchor held by pool key `idx`.
@@ -443,8 +456,9 @@ pub fn validated(ee: &EeSpec) -> Option<Validated> {
         Res::Inherit => validate_family(None, false, issuer, ee.trim),
         Res::Blocks(b) => validate_family(Some(b.iter().map(|p| (p.min(), p.max())).collect()), false, issuer, ee.trim),
     };
-    let v4 = fam(&ee.v4, ta_v4())?;
-    let v6 = fam(&ee.v6, ta_v6())?;
+    let issuer = ee.issuer as usize % POOL_SIZE;
+    let v4 = fam(&ee.v4, if ta_has_v4(issuer) { ta_v4() } else { Vec::new() })?;
+    let v6 = fam(&ee.v6, if ta_has_v6(issuer) { ta_v6() } else { Vec::new() })?;
     let asn = match &ee.asn {
         AsRes::Missing => validate_family(None, true, ta_as(), ee.trim),
         AsRes::Inherit => validate_family(None, false, ta_as(), ee.trim),
@@ -731,7 +745,8 @@ fn ee_strategy(wide: bool) -> BoxedStrategy<EeSpec> {
     } else {
         window_strategy()
     };
-    (0u8..8, 0u8..8, res_strategy(false), res_strategy(true), asres_strategy(), prop::bool::weighted(0.25), win, (any::<u16>(), any::<u64>()))
+    // issuers 5..8 (trust anchors lacking an IP family) in one case out of seven
+    (0u8..8, prop_oneof![6 => 0u8..5, 1 => 5u8..8], res_strategy(false), res_strategy(true), asres_strategy(), prop::bool::weighted(0.25), win, (any::<u16>(), any::<u64>()))
         .prop_map(|(key, issuer, v4, v6, asn, trim, (nb, na), (dc, dr))| {
             EeSpec { key, issuer, v4, v6, asn, trim, nb, na, dress: der::Dress::from_raw(dc, dr) }.normalize()
         })
@@ -938,6 +953,9 @@ pub enum DigestFault {
     Long(u8),
     /// an empty digest value, and the content replaced after signing
     EmptySwap,
+    /// the right length, two octets of the real digest changed by the same mask (the
+    /// differences cancel under XOR) or, with mask 0, exchanged
+    TwoOctets { i: u8, j: u8, mask: u8 },
 }
 
 impl DigestFault {
@@ -951,6 +969,26 @@ impl DigestFault {
                 v
             }
             DigestFault::EmptySwap => Vec::new(),
+            DigestFault::TwoOctets { i, j, mask } => {
+                let mut v = real.to_vec();
+                let n = v.len().max(2);
+                let (i, mut j) = (i as usize % n, j as usize % n);
+                if i == j {
+                    j = (j + 1) % n;
+                }
+                if v.len() >= 2 {
+                    if mask != 0 {
+                        v[i] ^= mask;
+                        v[j] ^= mask;
+                    } else if v[i] != v[j] {
+                        v.swap(i, j);
+                    } else {
+                        v[i] ^= 0x55;
+                        v[j] ^= 0x55;
+                    }
+                }
+                v
+            }
         }
     }
     pub fn label(self) -> &'static str {
@@ -958,6 +996,7 @@ impl DigestFault {
             DigestFault::Short(_) => "tamper:digest-short",
             DigestFault::Long(_) => "tamper:digest-long",
             DigestFault::EmptySwap => "tamper:digest-empty-swap",
+            DigestFault::TwoOctets { .. } => "tamper:digest-two-octets",
         }
     }
     /// Replaces the content "after signing" (same change as `ContentAfter`).
@@ -983,6 +1022,7 @@ pub fn digest_fault_strategy() -> BoxedStrategy<DigestFault> {
         4 => prop::sample::select(vec![0u8, 1, 16, 31]).prop_map(DigestFault::Short),
         3 => (1u8..=8).prop_map(DigestFault::Long),
         2 => Just(DigestFault::EmptySwap),
+        3 => (0u8..32, 0u8..32, prop_oneof![Just(0u8), Just(1u8), Just(0x80u8), any::<u8>()]).prop_map(|(i, j, mask)| DigestFault::TwoOctets { i, j, mask }),
     ]
     .boxed()
 }
